@@ -401,6 +401,113 @@ pub fn check_file(rows: &[Row], crlf: bool, final_newline: bool, header: &str, d
     Ok(())
 }
 
+/// the same file content through other media and with lines that are not valid UTF-8:
+/// medium 0 = regular file, 1 = symbolic link whose path has a blank and a non-ASCII character, 2 = named pipe fed by a writer thread;
+/// `corrupt` = file lines (0 = header, k = row k-1) in which the byte before the line terminator is replaced by 0xFF.
+/// Expected: a corrupted row yields SOME error item in its place (the statement does not say which); a corrupted header is skipped or
+/// yields one error item; every other row is delivered exactly as in `check_file` (content, order, line numbers of malformed rows).
+pub fn check_file_medium(rows: &[Row], crlf: bool, header: &str, medium: u8, corrupt: &[usize], dir: &std::path::Path, l: &mut Local) -> Check {
+    let term = if crlf { "\r\n" } else { "\n" };
+    let mut bytes: Vec<u8> = Vec::new();
+    let mut corrupted_rows: Vec<bool> = vec![false; rows.len()];
+    let mut header_corrupted = false;
+    let push_line = |text: &str, idx: usize, bytes: &mut Vec<u8>| -> bool {
+        let start = bytes.len();
+        bytes.extend_from_slice(text.as_bytes());
+        let hit = corrupt.contains(&idx) && bytes.len() > start;
+        if hit {
+            // replace the last character of the line (all of its bytes) by one 0xFF byte
+            let last_len = text.chars().last().map(|c| c.len_utf8()).unwrap_or(0);
+            bytes.truncate(bytes.len() - last_len);
+            bytes.push(0xff);
+        }
+        bytes.extend_from_slice(term.as_bytes());
+        hit
+    };
+    header_corrupted |= push_line(header, 0, &mut bytes);
+    for (i, r) in rows.iter().enumerate() {
+        corrupted_rows[i] = push_line(&r.text(), i + 1, &mut bytes);
+    }
+    let case = || json!({"op": "file_medium", "crlf": crlf, "header": header, "medium": medium, "corrupt_lines": corrupt, "rows": rows.iter().map(|r| r.json()).collect::<Vec<_>>(),
+        "reading": "medium 0 regular file, 1 symlink with blank and non-ASCII in its path, 2 named pipe; corrupt_lines: 0 = header, k = row k-1, last character replaced by byte 0xFF"});
+    let plain = dir.join("m.csv");
+    let path = match medium {
+        0 => {
+            std::fs::write(&plain, &bytes).expect("write csv");
+            plain.clone()
+        }
+        1 => {
+            std::fs::write(&plain, &bytes).expect("write csv");
+            let link = dir.join("li nk \u{e9}\u{6f22}.csv");
+            let _ = std::fs::remove_file(&link);
+            std::os::unix::fs::symlink(&plain, &link).expect("symlink");
+            link
+        }
+        _ => {
+            let fifo = dir.join("pipe.csv");
+            let _ = std::fs::remove_file(&fifo);
+            let ok = std::process::Command::new("mkfifo").arg(&fifo).status().map(|s| s.success()).unwrap_or(false);
+            if !ok {
+                l.label("skipped:no_mkfifo");
+                return Ok(());
+            }
+            fifo
+        }
+    };
+    l.eval();
+    let items: Vec<Result<PrecisDerivedProperty, precis_tools::Error>> = std::thread::scope(|s| {
+        if medium >= 2 {
+            let (p2, b2) = (path.clone(), &bytes);
+            s.spawn(move || {
+                use std::io::Write;
+                if let Ok(mut f) = std::fs::OpenOptions::new().write(true).open(&p2) {
+                    let _ = f.write_all(b2);
+                }
+            });
+        }
+        guard(|| {
+            let parser: CsvLineParser<std::fs::File, PrecisDerivedProperty> = CsvLineParser::from_path(&path).expect("open");
+            parser.collect()
+        })
+    })
+    .map_err(|p| Violation::new(case(), "no panic", format!("panic: {p}")))?;
+    let mut items = &items[..];
+    // a header that is not valid UTF-8: skipped, or reported as one error item
+    if header_corrupted && items.len() == rows.len() + 1 && items[0].is_err() {
+        items = &items[1..];
+    }
+    if items.len() != rows.len() {
+        return Err(Violation::new(case(), format!("{} rows delivered (header skipped)", rows.len()), format!("{} rows", items.len())));
+    }
+    for (i, (row, got)) in rows.iter().zip(items.iter()).enumerate() {
+        if corrupted_rows[i] {
+            if got.is_ok() {
+                return Err(Violation::new(case(), format!("row {i} (not valid UTF-8) is reported as an error"), format!("{got:?}")));
+            }
+            continue;
+        }
+        if let Err((e, o)) = compare(row, got, term) {
+            return Err(Violation::new(case(), format!("row {i}: {e}"), o));
+        }
+        if let Err(e) = got {
+            let want_line = Some(i as u64 + 2);
+            if e.line() != want_line {
+                return Err(Violation::new(case(), format!("error of row {i} carries line {want_line:?}"), format!("{:?}", e.line())));
+            }
+        }
+    }
+    if rows.len() >= 2 {
+        l.nt(hash64(&(rows, crlf, medium, corrupt)));
+        l.label(match (medium, corrupt.is_empty()) {
+            (0, false) => "regular_file_with_non_utf8_lines",
+            (1, _) => "through_symlink",
+            (2, _) => "through_named_pipe",
+            _ => "regular_file",
+        });
+    }
+    Ok(())
+}
+
 fn desc_strategy() -> BoxedStrategy<String> {
     let ch = prop_oneof![
         50 => (0x20u8..0x7f).prop_map(|b| b as char),
@@ -535,6 +642,47 @@ pub fn run(run: &Run) {
             check_file(&rows, *crlf, *fin, "Codepoint,Property,Description", &dir, l)
         },
     );
+    // the same kind of files through a symbolic link / a named pipe, and with lines (header included) that are not valid UTF-8
+    let base6 = base.clone();
+    run.prop(
+        "media_and_non_utf8_lines",
+        run.pick(6_000, 100_000),
+        move || (vec(row_strategy(25), 1..=12), any::<bool>(), 0u8..3, vec(0usize..14, 0..3), any::<bool>()),
+        move |(rows, crlf, medium, corrupt, plain_header), l| {
+            // empty rows have no byte to corrupt and an empty last line is not a line: keep rows non-empty here
+            let rows: Vec<Row> = rows.iter().filter(|r| !r.text().is_empty()).cloned().collect();
+            let dir = base6.join(format!("m{}", l.tid));
+            std::fs::create_dir_all(&dir).expect("mkdir work");
+            let header = if *plain_header { "Codepoint,Property,Description" } else { "Codepoint,Property,Descripci\u{f3}n" };
+            check_file_medium(&rows, *crlf, header, *medium, corrupt, &dir, l)
+        },
+    );
+    // very long files: 65 540 / 131 080 / 1 100 000 rows (thorough: 4 200 000) with malformed rows at lines around 256, 65 536, 131 072 and at the very end
+    // (line counters, row-count thresholds)
+    let base5 = base.clone();
+    run.par("very_long_files", true, |tid, n, l| {
+        let counts: Vec<usize> = run.pick(vec![65_540usize, 131_080, 1_100_000], vec![65_540usize, 131_080, 1_100_000, 4_200_000]);
+        for (i, count) in counts.iter().enumerate() {
+            for (vi, crlf) in [false, true].into_iter().enumerate() {
+                if (i * 2 + vi) % n != tid {
+                    continue;
+                }
+                let dir = base5.join(format!("v{tid}"));
+                std::fs::create_dir_all(&dir).expect("mkdir work");
+                let mut rows: Vec<Row> = (0..*count).map(|k| Row { start: 0x41 + (k % 5000) as u32, end: if k % 7 == 0 { Some(0x41 + (k % 5000) as u32 + 3) } else { None }, width: 4, p1: (k % 7) as u8, p2: None, desc: "d".to_string(), mal: Mal::None }).collect();
+                for at in [254usize, 255, 256, 257, 65_533, 65_534, 65_535, 65_536, 65_537, 131_070, 131_071, 131_072, 131_073, 1_048_575, 1_048_576, count - 1] {
+                    if at < *count {
+                        rows[at].mal = [Mal::BadProp(2), Mal::BadCp(2), Mal::DropFields(2)][at % 3].clone();
+                    }
+                }
+                l.cases += 1;
+                if let Err(v) = check_file(&rows, crlf, true, "Codepoint,Property,Description", &dir, l) {
+                    run.violate(Violation::new(json!({"op": "very_long_file", "rows": count, "crlf": crlf, "note": "c17.rs very_long_files: malformed rows at lines around 256, 65536, 131072, 2^20 and the last one"}), v.expected, v.observed.chars().take(300).collect::<String>()));
+                    return;
+                }
+            }
+        }
+    });
     // huge lines: descriptions around the usual buffer / limit sizes, followed by normal and malformed rows
     let base4 = base.clone();
     run.par("huge_lines", true, |tid, n, l| {
@@ -596,6 +744,29 @@ pub fn replay(_run: &Run, case: &Value) -> Check {
             r
         }
         Some("iana_file") => Ok(()),
+        Some("file_medium") => {
+            let rows: Vec<Row> = case["rows"].as_array().unwrap().iter().map(serde_row).collect();
+            let dir = ucd::verif_dir().join("work").join(format!("c17-replay-{}", std::process::id()));
+            std::fs::create_dir_all(&dir).unwrap();
+            let corrupt: Vec<usize> = case["corrupt_lines"].as_array().unwrap().iter().map(|x| x.as_u64().unwrap() as usize).collect();
+            let r = check_file_medium(&rows, case["crlf"].as_bool().unwrap(), case["header"].as_str().unwrap(), case["medium"].as_u64().unwrap() as u8, &corrupt, &dir, &mut l);
+            let _ = std::fs::remove_dir_all(&dir);
+            r
+        }
+        Some("very_long_file") => {
+            let count = case["rows"].as_u64().unwrap() as usize;
+            let mut rows: Vec<Row> = (0..count).map(|k| Row { start: 0x41 + (k % 5000) as u32, end: if k % 7 == 0 { Some(0x41 + (k % 5000) as u32 + 3) } else { None }, width: 4, p1: (k % 7) as u8, p2: None, desc: "d".to_string(), mal: Mal::None }).collect();
+            for at in [254usize, 255, 256, 257, 65_533, 65_534, 65_535, 65_536, 65_537, 131_070, 131_071, 131_072, 131_073, 1_048_575, 1_048_576, count - 1] {
+                if at < count {
+                    rows[at].mal = [Mal::BadProp(2), Mal::BadCp(2), Mal::DropFields(2)][at % 3].clone();
+                }
+            }
+            let dir = ucd::verif_dir().join("work").join(format!("c17-replay-{}", std::process::id()));
+            std::fs::create_dir_all(&dir).unwrap();
+            let r = check_file(&rows, case["crlf"].as_bool().unwrap_or(false), true, "Codepoint,Property,Description", &dir, &mut l);
+            let _ = std::fs::remove_dir_all(&dir);
+            r
+        }
         Some("huge_line") => {
             let unit = case["unit"].as_str().unwrap();
             let sz = case["description_bytes"].as_u64().unwrap() as usize;
